@@ -458,6 +458,54 @@ func c02(c *core.Ctx) {
 		})
 		c.Check(n >= 2, "C02.R2", x.f.Name()+"|current-updated", fpos(c, x.f), "current count maintained", "SubscriptionsCurrent is no longer maintained in "+x.f.Name())
 	}
+	// the per-client index and the trie selected for a topic belong to the same family (user / system / shared)
+	for _, f := range []*ssa.Function{sl, ul} {
+		fam := func(v ssa.Value) string {
+			for w := range ssax.Backward(v) {
+				o := ssax.FieldOwner(w)
+				for _, k := range []string{"user", "system", "shared"} {
+					if o == "persistence/subscription/mem.TrieDB."+k+"Index" || o == "persistence/subscription/mem.TrieDB."+k+"Trie" {
+						return k
+					}
+				}
+			}
+			return ""
+		}
+		byBlock := map[*ssa.BasicBlock][]*ssa.Phi{}
+		ssax.Instrs(f, false, func(_ *ssa.Function, in ssa.Instruction) {
+			if ph, ok := in.(*ssa.Phi); ok {
+				byBlock[ph.Block()] = append(byBlock[ph.Block()], ph)
+			}
+		})
+		n := 0
+		for _, phis := range byBlock {
+			for _, a := range phis {
+				if _, isMap := a.Type().Underlying().(*types.Map); !isMap {
+					continue
+				}
+				for _, b := range phis {
+					if ssax.TypeName(b.Type()) != trieNode {
+						continue
+					}
+					for i := range a.Edges {
+						fa, fb := "", ""
+						if _, isPhi := a.Edges[i].(*ssa.Phi); !isPhi {
+							fa = fam(a.Edges[i])
+						}
+						if _, isPhi := b.Edges[i].(*ssa.Phi); !isPhi {
+							fb = fam(b.Edges[i])
+						}
+						if fa == "" || fb == "" {
+							continue
+						}
+						n++
+						c.Check(fa == fb, "C02.R4", fmt.Sprintf("%s|index-and-trie-same-family|%s", f.Name(), fb), ipos(c, a), "index and trie of one family are selected together", fmt.Sprintf("for %s topics %s selects the %s index together with the %s trie: the by-client index and the counters go out of step with the trie", fb, f.Name(), fa, fb))
+					}
+				}
+			}
+		}
+	}
+
 	// the index key of a shared subscription includes the share name
 	okKey := false
 	ssax.Instrs(sl, false, func(_ *ssa.Function, in ssa.Instruction) {
